@@ -14,7 +14,7 @@ From XV Require Import Base.Label Base.LSet Base.ODict Base.Attr Base.Outcome Mo
 Import ListNotations.
 
 Inductive table := TNode | TEdge.                    (* _node / _edge (sets) ; their attribute dicts go along *)
-Inductive vexp := VArg (i : nat) | VLoop.           (* the i-th label parameter, the loop variable *)
+Inductive vexp := VArg (i : nat) | VLoop | VLoop1.  (* the i-th label parameter, the innermost loop variable, the enclosing one *)
 Inductive bexp :=
 | BIn (k : vexp) (t : table)                         (* k in self._T *)
 | BMember (x k : vexp) (t : table)                   (* x in self._T[k] *)
@@ -32,11 +32,13 @@ Inductive stmt :=
 | SDelAttr (t : table) (k : vexp)                    (* del self._T_attr[k] *)
 | SUid (k : vexp)                                    (* update_uid_counter(self, k) *)
 | SAttrUpdate (t : table) (k : vexp)                 (* self._T_attr[k].update(attr), attr = the **attr of the call *)
-| SForCopy (t : table) (k : vexp) (body : list stmt). (* for <loop> in self._T[k].copy(): body *)
+| SForCopy (t : table) (k : vexp) (body : list stmt)  (* for <loop> in self._T[k].copy(): body *)
+| SBindIn (t : table) (k : vexp) (body : list stmt)   (* x = self._T[k] (a reference to the stored set, not mutated afterwards); body = the rest of the block *)
+| SForLocal (i : nat) (minus : option vexp) (body : list stmt). (* for <loop> in <i-th bound set>[.difference({minus})]: body *)
 
-Record env := mkEnv { e_args : list lbl; e_flags : list bool; e_loop : lbl; e_attr : attrs }.
+Record env := mkEnv { e_args : list lbl; e_flags : list bool; e_loop : lbl; e_attr : attrs; e_loop1 : lbl; e_locals : list (list lbl) }.
 Definition veval (v : vexp) (en : env) : lbl :=
-  match v with VArg i => nth i (e_args en) LNone | VLoop => e_loop en end.
+  match v with VArg i => nth i (e_args en) LNone | VLoop => e_loop en | VLoop1 => e_loop1 en end.
 Definition tab (t : table) (s : hg) : odict (list lbl) := match t with TNode => h_node s | TEdge => h_edge s end.
 Definition set_tab (t : table) (s : hg) (d : odict (list lbl)) : hg := match t with TNode => with_node s d | TEdge => with_edge s d end.
 Definition atab (t : table) (s : hg) : odict attrs := match t with TNode => h_nattr s | TEdge => h_eattr s end.
@@ -100,18 +102,40 @@ Fixpoint exec (p : stmt) (en : env) (s : hg) {struct p} : hg * outcome :=
              | x :: r =>
                  match (fix go (l : list stmt) (s : hg) : hg * outcome :=
                           match l with [] => (s, Ok)
-                          | q :: r' => match exec q (mkEnv (e_args en) (e_flags en) x (e_attr en)) s with (s', Ok) => go r' s' | y => y end end) body s with
+                          | q :: r' => match exec q (mkEnv (e_args en) (e_flags en) x (e_attr en) (e_loop en) (e_locals en)) s with (s', Ok) => go r' s' | y => y end end) body s with
                  | (s', Ok) => iter r s'
                  | y => y
                  end
              end) m s
       end
+  | SBindIn t k body =>
+      match get (veval k en) (tab t s) with
+      | None => (s, Raised IDNotFound)
+      | Some m =>
+          (fix go (l : list stmt) (s : hg) : hg * outcome :=
+             match l with [] => (s, Ok)
+             | q :: r => match exec q (mkEnv (e_args en) (e_flags en) (e_loop en) (e_attr en) (e_loop1 en) (m :: e_locals en)) s with
+                         | (s', Ok) => go r s' | y => y end end) body s
+      end
+  | SForLocal i minus body =>
+      (fix iter (xs : list lbl) (s : hg) : hg * outcome :=
+         match xs with
+         | [] => (s, Ok)
+         | x :: r =>
+             match (fix go (l : list stmt) (s : hg) : hg * outcome :=
+                      match l with [] => (s, Ok)
+                      | q :: r' => match exec q (mkEnv (e_args en) (e_flags en) x (e_attr en) (e_loop en) (e_locals en)) s with
+                                   | (s', Ok) => go r' s' | y => y end end) body s with
+             | (s', Ok) => iter r s'
+             | y => y
+             end
+         end) (match minus with Some v => sremove (veval v en) (nth i (e_locals en) []) | None => nth i (e_locals en) [] end) s
   end.
 
 Fixpoint exec_list (l : list stmt) (en : env) (s : hg) : hg * outcome :=
   match l with [] => (s, Ok) | q :: r => match exec q en s with (s', Ok) => exec_list r en s' | x => x end end.
 
 Definition run_method_a (body : list stmt) (args : list lbl) (flags : list bool) (a : attrs) (s : hg) : res :=
-  match exec_list body (mkEnv args flags LNone a) s with (s', o) => (s', o, O) end.
+  match exec_list body (mkEnv args flags LNone a LNone []) s with (s', o) => (s', o, O) end.
 Definition run_method (body : list stmt) (args : list lbl) (flags : list bool) (s : hg) : res :=
   run_method_a body args flags [] s.
